@@ -71,6 +71,10 @@ type Table struct {
 	Name string
 	Cols int
 	Rows []Row
+	// ColDecl, when non-nil, spells the column declarations: one table:table-column per entry n,
+	// with table:number-columns-repeated="n" when n > 1 (the entries should add up to Cols).
+	// nil: a single declaration repeated Cols times.
+	ColDecl []int
 }
 
 // Row is table:table-row.
@@ -319,10 +323,16 @@ func (w *writer) blocks(bs []Block) {
 				name = fmt.Sprintf("Table%d", w.tbl)
 			}
 			w.f(`<table:table table:name="%s">`, esc(name))
-			if x.Cols > 1 {
-				w.f(`<table:table-column table:number-columns-repeated="%d"/>`, x.Cols)
-			} else {
-				w.b.WriteString(`<table:table-column/>`)
+			decl := x.ColDecl
+			if decl == nil {
+				decl = []int{x.Cols}
+			}
+			for _, n := range decl {
+				if n > 1 {
+					w.f(`<table:table-column table:number-columns-repeated="%d"/>`, n)
+				} else {
+					w.b.WriteString(`<table:table-column/>`)
+				}
 			}
 			for _, r := range x.Rows {
 				w.b.WriteString(`<table:table-row>`)
